@@ -722,14 +722,11 @@ pub fn one_case(ctx: &Ctx, i: usize, id: String, malformed: bool) -> Case {
                 (None, Some(k)) => {
                     let users: Vec<u32> = attached.iter().filter(|(_, rs)| rs.contains(k)).map(|(r, _)| *r).collect();
                     if !users.is_empty() {
-                        if err_seen {
-                            // the property speaks of histories without device errors: released on an error path
-                            for u in users {
-                                attached.remove(&u);
-                            }
-                            c.tag("gpu:backing-released-on-device-error");
-                        } else {
-                            c.fail(format!("dma_dealloc of region D{} while it is attached as backing of resource {:#x} (no device error)", k, users[0]));
+                        // since fix 1ac4978 this holds whatever the device answers (before it, a rejected
+                        // SET_SCANOUT / TRANSFER_TO_HOST_2D released the buffer that had just been attached)
+                        c.fail(format!("dma_dealloc of region D{} while it is attached as backing of resource {:#x}{}", k, users[0], if err_seen { " (after a device error)" } else { " (no device error)" }));
+                        for u in users {
+                            attached.remove(&u);
                         }
                     }
                 }
